@@ -7,7 +7,7 @@ import Proofs.C03Effect
 namespace TM
 open C02 C03
 
-/-- a machine-level transition `src → dst` is LOCAL w.r.t. the ghost state at the moment it executes: its source is
+/-- a transition `src → dst` (global names) is LOCAL w.r.t. the ghost state at the moment it executes: its source is
 active and has not been entered during the current event, nothing below the source was entered during the current
 event, and wherever an ancestor of the source (or the machine itself) has two or more active children the
 destination lies in the same child's branch as the source -/
@@ -17,12 +17,12 @@ def localNow (g : G) (src dst : SPath) : Bool :=
         decide ((liveKids g.live (src.take k)).length < 2) || isPrefix (src.take (k + 1)) dst)
   && g.entered.all (fun q => !isPrefix src q)
 
-/-- the transition reference denotes machine-level transitions with a destination that are all local now
-(a transition declared inside a state definition never counts as local: C03's P4 fails for it) -/
+/-- the transitions the reference denotes (declared on the machine or inside a state definition — source and
+destination are relative to the declaring scope `tr.scope`) that have a destination are all local now -/
 def localRef (cfg : NCfg) (g : G) (tr : TRef) : Bool :=
-  tr.scope.isEmpty && (allTrans cfg).all fun e =>
+  (allTrans cfg).all fun e =>
     e.1 != tr || (match e.2.dest with
-      | some d => localNow g e.2.source d
+      | some d => localNow g (tr.scope ++ e.2.source) (tr.scope ++ d)
       | none => true)
 
 /-- some transition that executes in the segment is not local at that moment -/
